@@ -101,6 +101,12 @@ CHECKS = {
     note="Trusted: TLC; the harness's projection (pointer identity -> small ints). HeaderI is bound to the code via the P traces and its as-coded switches (8 header defects found and repaired, see KNOWN_FINDINGS.txt).",
     technique="TLA+ P-spec/I-spec, TLC complete state graph of HeaderI + TLC trace validation of real edit histories with full state projection",
     engine="Header"),
+ "C18": dict(
+    category="model_checking", design_ref="DESIGN.md §5 C18, App. A.5",
+    text="MergerP: every Read returns the next unread record of some input, not before the previous output in the declared order (coordinate = merged header's reference order then position, unplaced last; queryname; concatenation; custom less), each record exactly once, io.EOF only after every input ended cleanly, an input's read error reported, Ref and MateRef objects of the merged header with the source's names. MergerI (heads, minimum under the code's Less with id tie-break, refill, empty inputs, error latch, cat mode) is checked by TLC against these clauses for all small inputs incl. empty and failing ones. Seeded scenarios with in-memory BAM inputs (1-4/8 inputs, five orders, header lists whose order differs from name order, mates on other references, a stream cut inside a member as failing input) run on the real Merger and every Read is validated by TLC.",
+    note="Trusted: TLC; BAM inputs are produced by the library's own writer; string order for queryname is projected by the harness. Tie order between inputs is not constrained (the property does not state one).",
+    technique="TLA+ P-spec/I-spec, TLC exhaustive small inputs + TLC trace validation of real merges",
+    engine="Merger"),
 }
 NA_REASON = "check not built yet in this round (specification work in progress; see DESIGN.md §10 build order)"
 
@@ -133,6 +139,7 @@ def main():
 
 HOOK_COMMITS = ["4b6c86a", "f712ea4", "5dd3b6c", "b7bc5fc"]
 ENGINES = [
+ dict(name="Merger", path="spec/Merger", serves_properties=["C18"], kind_free_text="TLA+ MergerP/MergerI + TLC MC + trace validation"),
  dict(name="Header", path="spec/Header", serves_properties=["C07"], kind_free_text="TLA+ HeaderP/HeaderI + TLC MC + trace validation"),
  dict(name="Fai", path="spec/Fai", serves_properties=["C19"], kind_free_text="TLA+ Fai (FaiP/FaiI) + TLC MC + trace validation"),
  dict(name="BinIndex", path="spec/BinIndex", serves_properties=["C04", "C15"], kind_free_text="TLA+ IndexP/IndexI + TLC MC + trace validation"),
